@@ -29,7 +29,7 @@ def edit_checks(chk):
     for x in words:
         for y in words:
             cases.append((list(x), list(y)))
-    for _ in range(chk.n(1500, 20000)):
+    for _ in range(chk.n(1500, 40000)):
         K = rng.choice([1, 2, 3, 5])
         cases.append(([rng.choice('abcde'[:K]) for _ in range(rng.randrange(0, 12))],
                       [rng.choice('abcde'[:K]) for _ in range(rng.randrange(0, 12))]))
@@ -100,7 +100,7 @@ def self_distance(chk):
     vowels = 'aeiouɛɔəyøɑæɪʊ'
     cons = 'ptkbdgmnŋfvszʃʒxhlrjwʔθðɲɾʁ'
     tones = '¹²³⁴⁵'
-    n = chk.n(400, 4000)
+    n = chk.n(400, 8000)
     for it in range(n):
         w = ''
         for _ in range(rng.randrange(1, 5)):
